@@ -25,7 +25,8 @@ prop(
     "the map (resend_flighting leaves equal-coloured neighbours un-merged; the property does not fix the extent); a duplicate bare FIN "
     "frame is accepted (a lost empty FIN leaves a zero-length Lost entry in the colour map that is offered once more).",
     design_ref="DESIGN.md §3 C09",
-    legs=[dict(name="sendbuf", crate="l1rec", sub="c09", shards={Q: 16, T: 16}, budget={Q: 10000, T: 600000}, timeout=3600)],
+    legs=[dict(name="sendbuf", crate="l1rec", sub="c09", shards={Q: 16, T: 16}, budget={Q: 10000, T: 600000}, timeout=3600),
+          dict(name="miri", kind="miri", crate="l1rec", sub="c09", tiers=(T,), args=["--interp", "1"], budget={T: 12}, timeout=3600, mandatory=False)],
     floors={
         Q: {
             "sndbuf_step_checks": 500_000,
